@@ -439,6 +439,47 @@ Proof.
     destruct (slash_pools_pend _ _ _ _ _ _ _ _ _ k Sd E2) as [Q1 Q2]. rewrite Q1, Q2. apply A.
 Qed.
 
+(* ---------- aggregates ---------- *)
+Lemma with_act_J s rk r x : sorted (ur s) -> J s -> sget (ur s) rk = Some r -> J (w_ur (sset (ur s) rk (with_act r x)) s).
+Proof.
+  intros Su [S A] G. split; [exact S|]. intro k. simpl. destruct (A k) as (A1 & A2 & A3).
+  unfold pend_sa, pend_oa, pend_dg in *. rewrite !ssumk_sset. unfold old_of. rewrite G.
+  change (amt_sa (with_act r x)) with (amt_sa r). change (ur_amt (with_act r x)) with (ur_amt r).
+  change (ur_staker (with_act r x)) with (ur_staker r). change (ur_asset (with_act r x)) with (ur_asset r).
+  change (ur_op (with_act r x)) with (ur_op r).
+  split; [|split]; [rewrite A1 | rewrite A2 | rewrite A3]; ring.
+Qed.
+
+Lemma record_step_J s sk pend rk s2 p' : idx_inv s -> J s -> nst_record_step s sk pend rk = Some (s2, p') -> J s2.
+Proof.
+  intros I Hj H. apply record_step_shape in H. destruct H as (r & s1 & G & _ & H). simpl in H. destruct H as (U & ->).
+  pose proof (upd_sa_J0 _ _ _ _ _ Hj U) as J1. pose proof I as (Su & _).
+  apply upd_sa_frame in U. destruct U as (u & _).
+  apply log_ev_J. apply with_act_J; [rewrite u; exact Su | exact J1 | rewrite u; exact G].
+Qed.
+
+Lemma share_step_J s st a prop k row s' : J s -> nst_share_step s st a prop k row = Some s' -> J s'.
+Proof.
+  intros Hj H. apply share_step_shape in H. destruct H as (o & sh & tok & s1 & s2 & z & s3 & s4 & H). simpl in H.
+  destruct H as (_ & _ & _ & _ & U1 & U2 & U3 & U4 & ->). apply log_ev_J.
+  eapply upd_sa_J0; [|exact U4].
+  assert (J s2) as J2 by (eapply upd_dg_J0; [|exact U2]; eapply upd_oa_J0; eauto).
+  destruct z; [|inversion U3; subst; exact J2]. unfold delete_staker in U3.
+  destruct (sget (sl s2) _); [|discriminate]. inversion U3; subst. eapply (J_ext s2); try reflexivity. exact J2.
+Qed.
+
+Lemma nst_balance_J s st a x s' : idx_inv s -> J s -> nst_balance s st a x = Some s' -> J s'.
+Proof.
+  intros I Hj H. apply (nst_balance_P (fun s0 => idx_inv s0 /\ J s0) s st a x s' (conj I Hj)); try exact H.
+  - intros s1 _ U. split; [pose proof U as U'; apply upd_sa_frame in U'; destruct U' as (u & p & h & _); eapply (idx_inv_ext s); eauto|].
+    apply log_ev_J. eapply upd_sa_J0; eauto.
+  - intros info f s1 _ _ _ U. split; [pose proof U as U'; apply upd_sa_frame in U'; destruct U' as (u & p & h & _); eapply (idx_inv_ext s); eauto|].
+    apply log_ev_J. eapply upd_sa_J0; eauto.
+  - intros s0 pend rk s2 p' _ [I0 J0] E. split; [eapply record_step_idx; eauto | eapply record_step_J; eauto].
+  - intros prop s0 k row s2 [I0 J0] E. split; [|eapply share_step_J; eauto].
+    apply share_step_frame in E. destruct E as (u & p & _ & h & _). eapply (idx_inv_ext s0); eauto.
+Qed.
+
 Lemma step_J s o : idx_inv s -> J s -> wf_op o = true -> fresh_op s o = true -> J (fst (step s o)).
 Proof.
   intros I Hj Wf Fr. destruct o; simpl.
@@ -455,7 +496,7 @@ Proof.
   - destruct (end_block_idx J (fun s0 r I0 G J0 => proj1 (process_J s0 r I0 J0 G))
                 (fun s0 h J0 => J_ext s0 (w_height h s0) eq_refl eq_refl eq_refl eq_refl J0) s I Hj) as (_ & Q & _).
     exact Q.
-  - discriminate.
+  - destruct (nst_balance s staker asset x) as [s'|] eqn:E; simpl; [|exact Hj]. eapply nst_balance_J; eauto.
 Qed.
 
 Lemma run_J ops : forall s, idx_inv s -> J s -> hist_ok s ops = true -> J (run ops s).
